@@ -364,7 +364,7 @@ func TestC16TreeKinds(t *testing.T) {
 
 // TestC16TreeRandom: the same for random permutations.
 func TestC16TreeRandom(t *testing.T) {
-	common.Check(t, id, "TestC16TreeRandom", 400, 20000, func(rt *rapid.T) treeCase {
+	common.Check(t, id, "TestC16TreeRandom", 1000, 100000, func(rt *rapid.T) treeCase {
 		n := rapid.IntRange(1, maxN).Draw(rt, "n")
 		base := make([]uint32, n)
 		for i := range base {
@@ -924,18 +924,18 @@ func genHist(rt *rapid.T) histCase {
 
 // TestC16Carousel: carousel on generated committed chains and query sequences.
 func TestC16Carousel(t *testing.T) {
-	common.Check(t, id, "TestC16Carousel", 3000, 150000, genHist, histProp(leaderrotation.NameCarousel))
+	common.Check(t, id, "TestC16Carousel", 8000, 500000, genHist, histProp(leaderrotation.NameCarousel))
 }
 
 // TestC16Reputation: reputation on generated committed chains and query sequences.
 func TestC16Reputation(t *testing.T) {
-	common.Check(t, id, "TestC16Reputation", 3000, 150000, genHist, histProp(leaderrotation.NameReputation))
+	common.Check(t, id, "TestC16Reputation", 8000, 500000, genHist, histProp(leaderrotation.NameReputation))
 }
 
 // TestC16RealChain: both schemes on chains whose certificates are created by real authorities from real votes
 // (the leader combines the votes in arrival order), verified by another replica, and shipped through the wire format.
 func TestC16RealChain(t *testing.T) {
-	common.Check(t, id, "TestC16RealChain", 160, 4000, func(rt *rapid.T) histCase {
+	common.Check(t, id, "TestC16RealChain", 320, 12000, func(rt *rapid.T) histCase {
 		n := genN(rt, 7)
 		return histCase{
 			Sig:      rapid.SampledFrom([]string{crypto.NameECDSA, crypto.NameEDDSA, crypto.NameECDSA, crypto.NameEDDSA, crypto.NameBLS12}).Draw(rt, "sig"),
@@ -964,7 +964,7 @@ type supportCase struct {
 // property statement: never somebody outside it, and every member of it for some seed (so the exclusion list is
 // neither longer nor shorter than the last f committed blocks).
 func TestC16CarouselSupport(t *testing.T) {
-	common.Check(t, id, "TestC16CarouselSupport", 600, 20000, func(rt *rapid.T) supportCase {
+	common.Check(t, id, "TestC16CarouselSupport", 1500, 80000, func(rt *rapid.T) supportCase {
 		n := genN(rt, maxN)
 		f := refF(n)
 		return supportCase{
